@@ -338,10 +338,10 @@ func writeEvidence(spec *PropertySpec, opt CheckOptions, e *Engine, runs []*Harn
 	cov["functions_encoded"] = fnames
 	cov["harnesses"] = reports
 	cov["cover_points"] = sortedKeys(covers)
-	cov["queries"] = map[string]int64{"sat": stats.Sat, "unsat": stats.Unsat, "unknown": stats.Unknown, "errors": stats.Errors}
+	cov["queries"] = map[string]int64{"sat": stats.Sat, "unsat": stats.Unsat, "unknown": stats.Unknown, "errors": stats.Errors, "decided_by_fallback_solver": stats.Fallbacks}
 	cov["solver_s"] = float64(stats.Nanos) / 1e9
 	cov["load_s"] = loadS
-	cov["solver"] = "z3 (system /usr/bin/z3), self-contained SMT-LIB2 queries over one pipe per worker"
+	cov["solver"] = "z3 4.8.12 (/usr/bin/z3), self-contained SMT-LIB2 queries after (reset) over one pipe per worker, 8 s cap; on timeout a one-shot portfolio decides the same query: z3 5.1 int-blasting (smt.bv.solver=2), cvc5 --solve-bv-as-int=sum, z3 5.1 default (60 s each); no answer = inconclusive"
 	cov["bounds"] = spec.Bounds
 	cov["outside_bounds"] = spec.Outside
 	cov["stubs"] = spec.Stubs
